@@ -90,9 +90,11 @@ class MTSMonitor(Monitor):
     def __init__(self, env: Any, family: str):
         self.env, self.fam = env, family
         self.W = [make_wrapped(env, p) for p in PAIRS]
-        self.step_b = [jax.jit(jax.vmap(lambda s, A, w=w: jax.vmap(lambda a: w.step(s, a))(A), in_axes=(0, None)))
-                       for w in self.W]
-        self.reset_b = [jax.jit(jax.vmap(w.reset)) for w in self.W]
+        # one compilation for all aggregator pairs (each element of the tuple is what that wrapper returns)
+        W = self.W
+        self.step_all = jax.jit(jax.vmap(lambda s, A: jax.vmap(lambda a: tuple(w.step(s, a) for w in W))(A),
+                                         in_axes=(0, None)))
+        self.reset_all = jax.jit(jax.vmap(lambda k: tuple(w.reset(k) for w in W)))
         self.eager_done = 0
 
     # -- comparison of one batch ----------------------------------------------------------------
@@ -146,8 +148,7 @@ class MTSMonitor(Monitor):
             for i in np.nonzero(mask)[0][:2]:
                 self.ex.violation(sig, msg, int(roots.ids[i]))
 
-        for pair, fn in zip(PAIRS, self.reset_b):
-            ws, wts = fn(keys)
+        for pair, (ws, wts) in zip(PAIRS, self.reset_all(keys)):
             self._compare("reset", roots.state, roots.ts, to_np(ws), to_np(wts), pair, 1, en, report)
         self.ex.count("mts_resets_compared", R * len(PAIRS))
 
@@ -166,8 +167,7 @@ class MTSMonitor(Monitor):
             for i, a in list(zip(*np.nonzero(mask)))[:2]:
                 self.ex.violation(sig, msg, int(parents.ids[i]), int(a))
 
-        for pair, fn in zip(PAIRS, self.step_b):
-            ws, wts = fn(st_j, A)
+        for pair, (ws, wts) in zip(PAIRS, self.step_all(st_j, A)):
             ws, wts = to_np(ws), to_np(wts)
             if size > m:
                 ws, wts = t_index(ws, slice(0, m)), t_index(wts, slice(0, m))
@@ -350,7 +350,7 @@ def run_mts(cfg_name: str, tier: str, seed: int, model: str = "") -> Dict[str, A
     mon = MTSMonitor(env, cfg.family)
     ex = Explorer(env, f"mts:{cfg_name}", PID, keys=cfg.keys(tier), monitors=[mon], max_depth=cfg.depth,
                   max_states=3000 if tier == "quick" else 40000, seed=seed, ctor=cfg.ctor,
-                  eager_budget_s=4.0, eager_max_paths=2, time_budget_s=60.0 if tier == "quick" else 400.0)
+                  eager_budget_s=4.0, eager_max_paths=2)  # no wall-clock cap: coverage must not depend on load
     res = ex.run()
     # reset through the plain un-jitted wrapper for the first key
     for sig, msg in eager_reset_problems(env, jax.random.PRNGKey(cfg.keys(tier)[0]), list(PAIRS) + [EXTRA_EAGER]):
